@@ -21,7 +21,7 @@ func init() {
 	}
 	properties["C14"] = &Property{
 		Title: "Parse(nil) skips a block",
-		Rules: []string{"R-CLAMP-N", "R-EMPTY", "R-ADVANCE", "R-NIL-NOEMIT"},
+		Rules: []string{"R-CLAMP-N", "R-EMPTY", "R-ADVANCE", "R-NIL-NOEMIT", "R-GSAP-COVERED"},
 		Decided: "nil branch: clamp, (0,ErrEmptyBuffer) iff n₀==0, W advanced by the returned n, blk never dereferenced.",
 		NotDecided: "that blocks parsed afterwards remain correct (C01).",
 	}
@@ -103,7 +103,7 @@ func init() {
 func init() {
 	properties["C16"] = &Property{
 		Title: "accepted configurations never panic, hang or fail spuriously",
-		Rules: []string{"R-INIT-ORDER", "R-VERIFY-REQ", "R-PANIC", "R-ERRSET", "R-LOOPS-PARSER", "R-MARGIN", "R-HASHRANGE", "R-GSAP-REBUILD"},
+		Rules: []string{"R-INIT-ORDER", "R-VERIFY-REQ", "R-PANIC", "R-ERRSET", "R-LOOPS-PARSER", "R-MARGIN", "R-HASHRANGE", "R-GSAP-REBUILD", "R-GSAP-COVERED"},
 		Decided: "init order (SetDefaults, Verify, error returned, completed value stored); every downstream range requirement is implied by Verify; every reachable explicit panic is discharged; the error set of the parser API; termination templates for all parser-side loops of package lz; 7-byte margin.",
 		NotDecided: "implicit run-time panics (index out of range in the sorters, integer overflow), memory exhaustion, termination of ssort/trSort (package suffix loops are not matched to templates).",
 		Assumptions: []string{"an io.Reader does not return (0, nil) forever", "DivSufSort-internal panics (algorithm invariants) are not decided"},
@@ -123,7 +123,7 @@ func init() {
 func init() {
 	properties["C12"] = &Property{
 		Title: "GSAP always takes the longest available match",
-		Rules: []string{"R-STRIDE", "R-GSAP-INSERT", "R-GSAP-BOTH", "R-GSAP-REBUILD", "R-COPY-CLOBBER", "R-RESET-COVER"},
+		Rules: []string{"R-STRIDE", "R-GSAP-INSERT", "R-GSAP-BOTH", "R-GSAP-REBUILD", "R-GSAP-COVERED", "R-COPY-CLOBBER", "R-RESET-COVER"},
 		Decided: "the scan visits every uncovered position exactly once up to the block end; the current rank is inserted before both neighbour queries and every covered position is inserted; both neighbours are queried, measured against the block-clipped data and the larger length is emitted; the block is scanned only inside the current suffix array or after a rebuild that restores the whole window; the search set's storage is not clobbered when re-grown; Reset/Shrink drop the suffix arrays.",
 		NotDecided: "that the two suffix-array neighbours give the longest previous match (needs a correct suffix array, C09) and the bit tricks inside bitset.memberBefore/memberAfter/insert.",
 		Assumptions: []string{"suffix.Sort yields the suffix array (C09)", "bitset queries return the nearest members (bit-level arithmetic not decided)"},
